@@ -26,7 +26,7 @@
    (then the first slot of the new epoch resolves).  NextResolve = "ascoded" is that; "either" lets the block run or
    not after any loop iteration and after the loop (the property does not care).
    TickMode = "ascoded": the ticker emits as newSlotTicker does; "either": any slot may be handed to Tick (used by
-   trace validation, where the invariants TickOrder / TickNotEarly judge it). *)
+   trace validation, where the invariants TickOrder / TickNotEarly / TickFresh judge it). *)
 EXTENDS Integers, Sequences, FiniteSets, TLC
 CONSTANTS SlotDur,       \* clock units per slot
           NextResolve, TickMode,
